@@ -356,6 +356,12 @@ def _body(draw, ctype):
 def requests(draw, methods=("GET", "POST", "PUT", "HEAD", "DELETE")):
     names = draw(st.lists(st.sampled_from(sorted(HEADER_VALUES)), max_size=8, unique=True))
     headers = [[n, draw(st.sampled_from(HEADER_VALUES[n]))] for n in names]
+    if draw(st.integers(0, 3)) == 0:
+        # a header sent on several lines (the WSGI server joins them with ", ", the ASGI scope keeps the lines)
+        rep = draw(st.sampled_from(["Accept", "Accept-Language", "X-Custom", "X-Forwarded-For", "Cache-Control", "Via"]))
+        vals = {"Accept": ["text/html", "application/json;q=0.9", "*/*;q=0.1"], "Accept-Language": ["de", "en;q=0.5"], "X-Custom": ["1", "2", "3"],
+                "X-Forwarded-For": ["10.0.0.1", "192.168.0.7"], "Cache-Control": ["no-cache", "no-store"], "Via": ["1.1 a", "1.1 b"]}[rep]
+        headers = [h for h in headers if h[0] != rep] + [[rep, v] for v in vals[: draw(st.integers(2, 3))]]
     ctype = next((v for k, v in headers if k == "Content-Type"), "")
     body_kind, body = _body(draw, ctype)
     # most of the time the Content-Type matches the body, so that json/form parsing is reached
@@ -422,7 +428,7 @@ def leaf(draw):
 
 @st.composite
 def app_case(draw):
-    shape = draw(st.sampled_from(["router", "subpaths", "hosts", "files", "pages", "mw", "nested"]))
+    shape = draw(st.sampled_from(["router", "subpaths", "hosts", "files", "pages", "mw", "nested", "router-in-router"]))
     if shape == "router":
         templates = ["/", "/a", "/a/{p}", "/i/{n:int}", "/d/{x:decimal}", "/t/{d:date}", "/u/{u:uuid}", "/any/{rest:any}", "/{p}", "/é", "/{a}/{b:int}"]
         routes = [[draw(st.sampled_from(templates)), draw(leaf())] for _ in range(draw(st.integers(1, 4)))]
@@ -437,6 +443,12 @@ def app_case(draw):
         app = {"app": shape, "tree": TREE}
         if draw(st.booleans()):
             app = {"app": "subpaths", "mounts": [["/static", app], ["", {"app": "response", "response": {"kind": "plain", "content": "fallback"}}]]}
+    elif shape == "router-in-router":
+        # a router as endpoint of a route of another router (both see the whole path), optionally through a mount
+        inner = {"app": "router", "routes": [["/o/{a}/i/{n:int}", draw(leaf())], ["/o/{a}/s/{name}", draw(leaf())], ["/o/{b}/{rest:any}", draw(leaf())]]}
+        if draw(st.booleans()):
+            inner = {"app": "subpaths", "mounts": [["", inner]]}
+        app = {"app": "router", "routes": [["/o/{outer}/{tail:any}", inner], ["/{rest:any}", draw(leaf())]]}
     elif shape == "mw":
         inner = draw(leaf())
         app = inner
@@ -451,6 +463,8 @@ def app_case(draw):
         if draw(st.integers(0, 2)) == 0:
             cond = draw(st.sampled_from([["If-None-Match", "*"], ["If-Modified-Since", "Fri, 31 Dec 2100 23:59:59 GMT"], ["If-None-Match", '"nope"'], ["Range", "bytes=0-3"], ["Range", "bytes=0-0,5-"]]))
             rq["headers"] = [h for h in rq["headers"] if h[0] not in ("If-None-Match", "If-Modified-Since", "Range", "If-Range")] + [cond]
+    if shape == "router-in-router" and draw(st.integers(0, 4)) > 0:
+        rq["path"] = draw(st.sampled_from(["/o/x/i/42", "/o/x/s/bob", "/o/é/i/7", "/o/x/zzz/y", "/o/x/i/notint", "/o/x/", "/other"]))
     if shape == "hosts" and draw(st.integers(0, 3)) > 0:
         rq["headers"] = [h for h in rq["headers"] if h[0] != "Host"] + [["Host", draw(st.sampled_from(["example.com", "EXAMPLE.com", "www.example.com", "example.com:8080", "Example.Com:80", "[::1]:8000", "x.example.com"]))]]
     if shape == "router" and draw(st.integers(0, 3)) > 0:
